@@ -53,6 +53,30 @@ var targets = []target{
 	{"typesa.Custom", "custom-function",
 		func() any { return map[string]any{"n": int64(4)} },
 		func() any { return &typesa.Custom{} }},
+	// two types declared inside functions: one package path, one name, two types
+	{"local1", "function-local-type-1",
+		func() any { return map[string]any{"a": int64(1), "b": "x"} },
+		localOne},
+	{"local2", "function-local-type-2",
+		func() any { return map[string]any{"x": 1.5, "y": []any{int64(1), int64(2)}, "z": true} },
+		localTwo},
+}
+
+func localOne() any {
+	type Local struct {
+		A int
+		B string
+	}
+	return &Local{}
+}
+
+func localTwo() any {
+	type Local struct {
+		X float64
+		Y []int
+		Z bool
+	}
+	return &Local{}
 }
 
 // recKind: private | default
